@@ -8,7 +8,12 @@ package dns
 // vInputs and record what happened.
 
 import (
+	"crypto/hmac"
+	"crypto/sha1"
+	"crypto/sha256"
+	"crypto/sha512"
 	"fmt"
+	"hash"
 	"reflect"
 	"runtime"
 	"strings"
@@ -295,4 +300,36 @@ func vAliased(a, b any) bool {
 		}
 	}
 	return false
+}
+
+// ---------- crypto seam: reference digests (engine: ideal-hash stub; native: the real primitive) ----------
+
+func vHashNew(alg string) func() hash.Hash {
+	switch alg {
+	case "sha1":
+		return sha1.New
+	case "sha224":
+		return sha256.New224
+	case "sha256":
+		return sha256.New
+	case "sha384":
+		return sha512.New384
+	case "sha512":
+		return sha512.New
+	}
+	panic("vHash: unknown algorithm " + alg)
+}
+
+// vHash returns the digest of data under the named hash.
+func vHash(alg string, data []byte) []byte {
+	h := vHashNew(alg)()
+	h.Write(data)
+	return h.Sum(nil)
+}
+
+// vHMAC returns the RFC 2104 MAC of data.
+func vHMAC(alg string, key, data []byte) []byte {
+	h := hmac.New(vHashNew(alg), key)
+	h.Write(data)
+	return h.Sum(nil)
 }
